@@ -75,6 +75,63 @@ impl Obj {
         }
         true
     }
+    /// two reads in one function (after inlining): both must reach the bus
+    fn read2(&mut self) -> Option<(u32, u32)> {
+        unsafe {
+            Some(match self {
+                Obj::Rw8(p) => (p.read() as u32, p.read() as u32),
+                Obj::Rw16(p) => (p.read() as u32, p.read() as u32),
+                Obj::Rw32(p) => (p.read(), p.read()),
+                Obj::Ro8(p) => (p.read() as u32, p.read() as u32),
+                Obj::Ro16(p) => (p.read() as u32, p.read() as u32),
+                Obj::Ro32(p) => (p.read(), p.read()),
+                _ => return None,
+            })
+        }
+    }
+    /// a read whose value the caller does not use (acknowledge-style access)
+    fn read_discard(&mut self) -> bool {
+        unsafe {
+            match self {
+                Obj::Rw8(p) => {
+                    let _ = p.read();
+                }
+                Obj::Rw16(p) => {
+                    let _ = p.read();
+                }
+                Obj::Rw32(p) => {
+                    let _ = p.read();
+                }
+                Obj::Ro8(p) => {
+                    let _ = p.read();
+                }
+                Obj::Ro16(p) => {
+                    let _ = p.read();
+                }
+                Obj::Ro32(p) => {
+                    let _ = p.read();
+                }
+                _ => return false,
+            }
+        }
+        true
+    }
+    /// the `!=` operator (PartialEq::ne may be hand-written)
+    #[allow(clippy::partialeq_ne_impl)]
+    fn ne(&self, o: &Obj) -> Option<bool> {
+        Some(match (self, o) {
+            (Obj::Rw8(a), Obj::Rw8(b)) => a != b,
+            (Obj::Rw16(a), Obj::Rw16(b)) => a != b,
+            (Obj::Rw32(a), Obj::Rw32(b)) => a != b,
+            (Obj::Ro8(a), Obj::Ro8(b)) => a != b,
+            (Obj::Ro16(a), Obj::Ro16(b)) => a != b,
+            (Obj::Ro32(a), Obj::Ro32(b)) => a != b,
+            (Obj::Wo8(a), Obj::Wo8(b)) => a != b,
+            (Obj::Wo16(a), Obj::Wo16(b)) => a != b,
+            (Obj::Wo32(a), Obj::Wo32(b)) => a != b,
+            _ => return None,
+        })
+    }
     fn dup(&self) -> Obj {
         match self {
             Obj::Rw8(p) => Obj::Rw8(p.clone()),
@@ -132,7 +189,7 @@ pub fn gen(seed: u64) -> Replay {
     }
     let mut next_id = 0u64;
     for _ in 0..n {
-        let op = if ids.is_empty() { 0 } else { rng.weighted(&[3, 6, 6, 2, 2]) };
+        let op = if ids.is_empty() { 0 } else { rng.weighted(&[3, 6, 6, 2, 2, 2, 2, 2]) };
         match op {
             0 => {
                 let access = *rng.pick(&["rw", "ro", "wo"]);
@@ -167,10 +224,21 @@ pub fn gen(seed: u64) -> Replay {
                 steps.push(json!({"op": "clone", "id": x.0, "new_id": next_id}));
                 next_id += 1;
             }
-            _ => {
+            4 => {
                 let a = rng.pick(&ids).0;
                 let b = rng.pick(&ids).0;
                 steps.push(json!({"op": "eq", "a": a, "b": b}));
+            }
+            5 => {
+                let a = rng.pick(&ids).0;
+                let b = rng.pick(&ids).0;
+                steps.push(json!({"op": "ne", "a": a, "b": b}));
+            }
+            k => {
+                let c: Vec<_> = ids.iter().filter(|x| x.1 != "wo").collect();
+                if let Some(x) = c.get(rng.below(c.len().max(1) as u64) as usize) {
+                    steps.push(json!({"op": if k == 6 { "read2" } else { "read_discard" }, "id": x.0}));
+                }
             }
         }
     }
@@ -226,6 +294,49 @@ pub fn run(rp: &Replay, st: &mut Stats) -> Option<Violation> {
                         }
                     }
                 }
+            }
+            "ne" => {
+                let (a, b) = (s["a"].as_u64().unwrap(), s["b"].as_u64().unwrap());
+                if let (Some(x), Some(y)) = (objs.get(&a), objs.get(&b)) {
+                    if let Some(r) = x.0.ne(&y.0) {
+                        st.calls += 1;
+                        if r != (x.1 != y.1) {
+                            return Some(viol(&["C18"], "port-eq", i, format!("port objects for ports {:#x} and {:#x}: `!=` returned {}", x.1, y.1, r)));
+                        }
+                    }
+                }
+            }
+            "read2" | "read_discard" => {
+                let id = s["id"].as_u64().unwrap();
+                let Some((o, port)) = objs.get_mut(&id) else { continue };
+                let port = *port;
+                let (acc, width) = o.kind();
+                if acc == 2 {
+                    continue;
+                }
+                let twice = op == "read2";
+                let r = sut_call(op, || if twice { o.read2() } else { o.read_discard().then_some((0, 0)) });
+                st.calls += 1;
+                let trace = std::mem::take(&mut world().cpu.trace);
+                st.fold_trace(&trace);
+                let got = match r {
+                    Err(m) => return Some(viol(&["C18"], "panic", i, format!("port {op} panicked: {m}"))),
+                    Ok(v) => v,
+                };
+                let want = if twice { 2 } else { 1 };
+                let ins: Vec<(u8, u16, u32)> = trace.iter().filter_map(|e| if let Ev::In { width, port, val } = e { Some((*width, *port, *val)) } else { None }).collect();
+                if trace.len() != want || ins.len() != want {
+                    return Some(viol(&["C18"], "port-access-count", i, format!("{} read(s) of a {}-bit port object for port {port:#x} ({}) executed {} port instruction(s): {trace:x?}", want, width * 8, if twice { "two reads in a row" } else { "value not used by the caller" }, trace.len())));
+                }
+                for (w2, p2, _) in &ins {
+                    if *w2 != width || *p2 != port {
+                        return Some(viol(&["C18"], "port-access", i, format!("read of a {}-bit port object for port {port:#x} executed a {}-bit `in` on port {p2:#x}", width * 8, w2 * 8)));
+                    }
+                }
+                if twice && got != Some((ins[0].2, ins[1].2)) {
+                    return Some(viol(&["C18"], "port-read-value", i, format!("device supplied {:#x} then {:#x} on port {port:#x} but the two reads returned {got:x?}", ins[0].2, ins[1].2)));
+                }
+                st.distinct_key(&[if twice { 2 } else { 3 }, acc as u64, width as u64, (port == 0) as u64, (port == 0xffff) as u64, (port > 0xff) as u64, 0]);
             }
             "read" | "write" => {
                 let id = s["id"].as_u64().unwrap();
